@@ -654,6 +654,11 @@ func checkHelpers(t interface {
 					}
 					continue
 				}
+				// the packet in flight stays unanswered for now; whatever the
+				// Write sends after it (the rest of its payload, once the first
+				// packet is acknowledged) is refused, as a peer that has closed
+				// the stream does
+				rsp.set("data", "refuse")
 				id := fmt.Sprintf("pcw%d", i)
 				sv.Feed(`<iq xmlns="` + ns + `" type="set" id="` + id + `" from="` + peerJID.String() + `" to="test@example.net"><close xmlns="http://jabber.org/protocol/ibb" sid="` + psid + `"/></iq>`)
 				if !answered(id) {
